@@ -11,6 +11,7 @@ INVARIANT ScalarsGiveF
 INVARIANT CallsPlusKept
 INVARIANT OnlyPastIsKept
 INVARIANT MechanismIsLaw
+INVARIANT SpellingIsNotKey
 INVARIANT CallsAreUncachedRows
 INVARIANT OncePerKey
 INVARIANT KeptRows
